@@ -115,7 +115,14 @@ mod e2e {
 						} else { texts.push((0, "sent:unknown".into())); }
 					},
 					Event::PaymentFailed { payment_id, reason, .. } => {
-						if let Some(p) = self.pays.iter().position(|x| x.id == *payment_id) { self.pays[p].failed_ev += 1; let mid = self.pays[p].mid; texts.push((mid, format!("failed:{}:{}", mid, reason.map(|r| format!("{:?}", r)).unwrap_or("None".into())))); }
+						if let Some(p) = self.pays.iter().position(|x| x.id == *payment_id) {
+							self.pays[p].failed_ev += 1; let mid = self.pays[p].mid; texts.push((mid, format!("failed:{}:{}", mid, reason.map(|r| format!("{:?}", r)).unwrap_or("None".into()))));
+							// truthful terminal event: PaymentFailed only once NO HTLC of the payment is in flight any more
+							// (read from the sender's channels, independent of the OutboundPayments map)
+							let h = self.pays[p].hash;
+							let live = self.sender_htlcs().values().filter(|x| **x == h).count();
+							if live > 0 { self.rec.oracle_fail(format!("PaymentFailed for payment {} while {} of its HTLCs are still pending in the sender's channels :: {}", mid, live, self.log.join(" | "))); }
+						}
 					},
 					Event::PaymentPathSuccessful { payment_id, path, .. } => {
 						if let Some(p) = self.pays.iter().position(|x| x.id == *payment_id) { let mid = self.pays[p].mid; texts.push((mid, format!("pathok:{}:{}", mid, self.part_of(p, path.hops[0].short_channel_id)))); }
